@@ -866,12 +866,25 @@ fn mode_names(dir: &str, cases: &[Value], named_src: Option<String>) {
     }
     for q in &queries { rec.ev(name_event(q)); }
     // the map as a set
-    let mut e: Vec<(String, [u8; 3])> = named::entries().map(|(n, c)| (n.to_string(), [c.red, c.green, c.blue])).collect();
+    // each iterator is consumed from both ends alternately (next, next_back, ...): every item exactly once
+    fn both_ends<I: DoubleEndedIterator>(mut it: I) -> Vec<I::Item> {
+        let mut out = vec![];
+        loop {
+            match it.next() { Some(x) => out.push(x), None => break }
+            match it.next_back() { Some(x) => out.push(x), None => break }
+        }
+        out
+    }
+    let mut e: Vec<(String, [u8; 3])> = both_ends(named::entries()).into_iter().map(|(n, c)| (n.to_string(), [c.red, c.green, c.blue])).collect();
     e.sort();
-    let mut n: Vec<String> = named::names().map(|s| s.to_string()).collect();
+    let mut n: Vec<String> = both_ends(named::names()).into_iter().map(|s| s.to_string()).collect();
     n.sort();
-    let mut cols: Vec<[u8; 3]> = named::colors().map(|c| [c.red, c.green, c.blue]).collect();
+    let mut cols: Vec<[u8; 3]> = both_ends(named::colors()).into_iter().map(|c| [c.red, c.green, c.blue]).collect();
     cols.sort();
+    // forwards only must give the same multiset
+    let mut e2: Vec<(String, [u8; 3])> = named::entries().map(|(n, c)| (n.to_string(), [c.red, c.green, c.blue])).collect();
+    e2.sort();
+    if e2 != e { e.push(("<forward and two-ended iteration disagree>".to_string(), [0, 0, 0])); }
     rec.ev(json!({"ev": "entries", "names": e.iter().map(|x| x.0.clone()).collect::<Vec<_>>(),
                   "vals": e.iter().map(|x| x.1).collect::<Vec<_>>(), "names_iter": n, "colors_iter": cols,
                   "len": named::entries().len()}));
